@@ -136,6 +136,7 @@ fn run_value_jobs(sp: &Space, tabs: &BTreeMap<usize, Vec<gen::Shape>>, jobs: &[J
             t.skipped = 1;
             return t;
         }
+        checks::reset_cache();
         for_each_value(sp, tabs, job, |v| {
             watch::enter("value", "");
             t.states += 1;
@@ -200,6 +201,7 @@ fn run_text_jobs(texts: &[String], acc: &Acc, leg: &str, max_cuts: usize, check_
             t.skipped_inputs = ((a + 64).min(texts.len()) - a) as u64;
             return t;
         }
+        checks::reset_cache();
         for text in &texts[a..(a + 64).min(texts.len())] {
             watch::enter("text", text);
             t.states += 1;
@@ -393,6 +395,7 @@ fn deep_leg(ctx: &Ctx, acc: &Acc, cfg: &Cfg) {
     let res = par_map(&inputs, ncpu(), |_, (name, v)| {
         let c0 = calls();
         let mut t = Tally::default();
+        checks::reset_cache();
         watch::enter("deep_value", name);
         t.states += 1;
         t.nontrivial += 1;
